@@ -22,6 +22,9 @@ pub enum Op {
     RemoteLen { a: usize, key: Vec<u8>, c: usize, dlen: u64, ts: u64 },
     /// flush, close and reopen the store (file stores)
     Reopen,
+    /// `Replica::insert` with a half-empty or empty shape: 0 = empty hash with a length,
+    /// 1 = a hash with length zero, 2 = empty hash and length zero (all refused: `EntryIsEmpty`)
+    InsertRaw { a: usize, key: Vec<u8>, shape: u8, ts: u64 },
 }
 
 pub struct C02 {
@@ -31,6 +34,22 @@ pub struct C02 {
 
 pub const KEY_BYTES: [u8; 6] = [0x00, 0x01, 0x61, 0x62, 0xFE, 0xFF];
 pub const TIMES: [u64; 4] = [5, 9, 10, 11];
+
+/// the shapes `Replica::insert` must refuse: (empty hash, length), (hash, zero length), (empty, zero)
+pub fn half_empty(shape: u8) -> (iroh_blobs::Hash, u64) {
+    match shape {
+        0 => (iroh_blobs::Hash::EMPTY, 3),
+        1 => (content(0).0, 0),
+        _ => (iroh_blobs::Hash::EMPTY, 0),
+    }
+}
+
+/// a key of 255 + |k| bytes: 255 times 0x61, then `k`
+pub fn long_key(k: &[u8]) -> Vec<u8> {
+    let mut v = vec![0x61u8; 255];
+    v.extend_from_slice(k);
+    v
+}
 
 pub fn gen_key(rng: &mut Rng) -> Vec<u8> {
     // short keys over a tiny alphabet so that prefixes, 0xFF edges and lexical neighbours are common
@@ -59,6 +78,9 @@ impl C02 {
         let a = rng.below(self.keys.authors.len());
         let key = gen_key(rng);
         let ts = *rng.pick(&TIMES);
+        if rng.chance(1, 16) {
+            return Op::InsertRaw { a, key, shape: rng.below(3) as u8, ts };
+        }
         match rng.below(10) {
             0..=2 => Op::Insert { a, key, c: rng.below(3), ts },
             3..=4 => Op::Delete { a, key, ts },
@@ -74,7 +96,7 @@ impl Property for C02 {
         "C02"
     }
     fn rule(&self) -> String {
-        "sequences of 1-12 offers (local insert, prefix delete, remote insert; thorough: up to 24) by 3 authors over keys from {00,01,61,62,FE,FF}^0..3 and 4 timestamps (ties frequent), on memory and file stores; every third case is extended by a shuffled copy of (part of) itself, so duplicates and permutations occur; a case is non-trivial when at least one offer was rejected or removed another entry; distinct = distinct operation lists".into()
+        "sequences of 1-12 offers (local insert, local insert of a half-empty or empty shape, prefix delete, remote insert; thorough: up to 24) by 3 authors over keys from {00,01,61,62,FE,FF}^0..3 and 4 timestamps (ties frequent), in a tenth of the cases every key behind a common 255-byte prefix (lengths 255-258), on memory and file stores; every third case is extended by a shuffled copy of (part of) itself, so duplicates and permutations occur; a case is non-trivial when at least one offer was rejected or removed another entry; distinct = distinct operation lists".into()
     }
     fn corpus(&self) -> Vec<(String, Vec<Op>)> {
         let t = |a: usize, k: &[u8], c: Option<usize>, ts: u64| Op::Remote { a, key: k.to_vec(), c, ts };
@@ -114,6 +136,17 @@ impl Property for C02 {
             let at = rng.below(ops.len() + 1);
             ops.insert(at, Op::Reopen);
         }
+        if rng.chance(1, 10) {
+            // long keys: lengths 255-258, prefix relations across the 256-byte mark
+            for o in ops.iter_mut() {
+                match o {
+                    Op::Insert { key, .. } | Op::InsertRaw { key, .. } | Op::Delete { key, .. } | Op::Remote { key, .. } | Op::RemoteLen { key, .. } => {
+                        *key = long_key(key);
+                    }
+                    _ => {}
+                }
+            }
+        }
         let mut all = vec![Op::Open { file: rng.chance(1, 4) }];
         all.extend(ops);
         all
@@ -146,6 +179,21 @@ impl Property for C02 {
                     drop(r);
                     rs.store.close_replica(nsid);
                     (a, key, honest_tok(&make_entry(ns, author, key, Some(*c), *ts)), res)
+                }
+                Op::InsertRaw { a, key, shape, ts } => {
+                    let author = &self.keys.authors[*a];
+                    let (hash, len) = half_empty(*shape);
+                    set_clock(*ts);
+                    let mut r = rs.store.open_replica(&nsid)?;
+                    let res = rt.block_on(r.insert(key, author, hash, len));
+                    drop(r);
+                    rs.store.close_replica(nsid);
+                    let e = iroh_docs::SignedEntry::from_parts(ns, author, key, iroh_docs::sync::Record::new(hash, len, *ts));
+                    lines.push(Line::model(format!("insertlocal 1 {}", honest_tok(&e)), insert_result(res)));
+                    let d = dump(&mut rs.store, nsid)?;
+                    lines.push(Line::model("dump 1", d.clone()));
+                    lines.push(Line::oracle("join 1", d));
+                    continue;
                 }
                 Op::Delete { a, key, ts } => {
                     let author = &self.keys.authors[*a];
@@ -215,6 +263,7 @@ impl Property for C02 {
             f.push(match o {
                 Op::Open { .. } => continue,
                 Op::Insert { .. } => "op:insert",
+                Op::InsertRaw { .. } => "op:insert-half-empty",
                 Op::Delete { .. } => "op:delete-prefix",
                 Op::Remote { c: Some(_), .. } => "op:remote-live",
                 Op::Remote { c: None, .. } => "op:remote-marker",
